@@ -305,7 +305,7 @@ func (u *Upstream) run(isResume bool) error {
 						DataPointGroups: dpg,
 					},
 				}
-				resultCh := make(chan *message.UpstreamChunkResult)
+				resultCh := make(chan *message.UpstreamChunkResult, 1)
 				u.mu.Lock()
 				u.upstreamChunkResultChs[chunk.StreamChunk.SequenceNumber] = resultCh
 				u.mu.Unlock()
@@ -469,7 +469,7 @@ func (u *Upstream) flush(ctx context.Context) error {
 		return err
 	}
 
-	resultCh := make(chan *message.UpstreamChunkResult)
+	resultCh := make(chan *message.UpstreamChunkResult, 1)
 	u.upstreamChunkResultChs[msgChunk.StreamChunk.SequenceNumber] = resultCh
 	go u.sendChunkAndWaitAck(ctx, msgChunk, resultCh)
 	return nil
@@ -659,12 +659,13 @@ func (u *Upstream) processResult(ctx context.Context, result *message.UpstreamCh
 	if !ok {
 		return nil
 	}
-	select {
-	case <-ctx.Done():
-	case <-u.ctx.Done():
-	case ch <- result:
-	}
 	delete(u.upstreamChunkResultChs, result.SequenceNumber)
+	// The waiter may already be gone (ack timeout, failed send). The channel has room
+	// for one result, so this never blocks while the stream lock is held.
+	select {
+	case ch <- result:
+	default:
+	}
 	return nil
 }
 
